@@ -21,10 +21,20 @@ EXTENDS Naturals, Sequences, FiniteSets, TLC, SequencesExt
 CONSTANTS U,         \* species universe (subset of 1..16, with gaps)
           Design,    \* "filepos" | "enumpos"
           ReadRule,  \* "written" | "all"
-          UnsetSpace, LayoutSpace   \* which unset patterns / layouts are enumerated
+          UnsetSpace, LayoutSpace,  \* which unset patterns / layouts are enumerated
+          ScalarRule,  \* "fill_is_unset" | "fill_is_default": what a never-written scalar cell reads as
+          DfltSpace    \* which patterns of the default-bearing optional scalars are enumerated
 
 SFields == {"ts1", "ts2", "tsp", "tsm"}   \* TS, TS, TSP, TSM species-indexed fields
-Opt == {"t_f", "t_i", "t_s"}              \* optional T scalars: float, int, str
+Opt == {"t_f", "t_i", "t_s"}              \* optional T scalars: float, int, str (no declared default)
+OptD == {"t_fd", "t_id"}                  \* optional T scalars with a declared default (float 2.5, int 0),
+                                          \* like the n_* phase counts of the base field set
+\* per trajectory the default-bearing scalars are: given a value; explicitly
+\* given None; or never assigned (the container then holds the default)
+OptStates == {"set", "none", "untouched"}
+AllDflt == [{1, 2} -> OptStates]
+PlainDflt == {[t \in {1, 2} |-> "set"]}
+SomeDflt == PlainDflt \cup {[t \in {1, 2} |-> IF t = 1 THEN "none" ELSE "untouched"], [t \in {1, 2} |-> IF t = 1 THEN "untouched" ELSE "none"]}
 Selectors == {"same", "none", "shift", "firstonly"}
 Layouts == {"single", "assoc_at_create", "create_associated", "save_from_memory", "evicted"}
 Trajs == {1, 2}
@@ -49,13 +59,22 @@ Val(f, t, sp) == (CASE f = "ts1" -> 1 [] f = "ts2" -> 2 [] f = "tsp" -> 3 [] f =
 
 WritePos(c, sp) == IF Design = "filepos" THEN PosIn(sp, FileSpecies(c)) ELSE sp
 
-VARIABLES case, phase, file, back, err
-cvars == <<case, phase, file, back, err>>
+VARIABLES case, phase, file, back, err,
+          sfile, sback    \* the per-trajectory scalar cells and what is read from them
+cvars == <<case, phase, file, back, err, sfile, sback>>
 
-CaseSpace == [s : [SFields -> SUBSET U], sel : Selectors, unset : UnsetSpace, layout : LayoutSpace]
+CaseSpace == [s : [SFields -> SUBSET U], sel : Selectors, unset : UnsetSpace, layout : LayoutSpace, dflt : DfltSpace]
 
 CInit == /\ case \in CaseSpace
          /\ phase = "start" /\ file = <<>> /\ back = <<>> /\ err = "none"
+         /\ sfile = <<>> /\ sback = <<>>
+
+\* abstract scalar values: <<field, t>> is the value given to trajectory t,
+\* <<field, 0>> the field's declared default, Unset = None / the fill value
+Unset == <<"unset", 0>>
+HeldBy(c, f, t) ==    \* what the trajectory holds when it is added
+  IF f \in Opt THEN (IF f \in c.unset THEN Unset ELSE <<f, t>>)
+  ELSE CASE c.dflt[t] = "set" -> <<f, t>> [] c.dflt[t] = "none" -> Unset [] c.dflt[t] = "untouched" -> <<f, 0>>
 
 Cells(c) == {<<f, t, sp>> : f \in SFields, t \in Trajs, sp \in U}
 Written(c) == {x \in Cells(c) : x[3] \in Sets(c, x[2])[x[1]]}
@@ -65,12 +84,14 @@ Written(c) == {x \in Cells(c) : x[3] \in Sets(c, x[2])[x[1]]}
 Write ==
   /\ phase = "start"
   /\ IF \E x \in Written(case) : WritePos(case, x[3]) > Len(FileSpecies(case))
-     THEN err' = "index_exceeds_dimension" /\ file' = file /\ phase' = "failed"
+     THEN err' = "index_exceeds_dimension" /\ file' = file /\ phase' = "failed" /\ sfile' = sfile
      ELSE /\ file' = [k \in {<<x[1], x[2], WritePos(case, x[3])>> : x \in Written(case)} |->
                         LET x == CHOOSE y \in Written(case) : <<y[1], y[2], WritePos(case, y[3])>> = k
                         IN Val(x[1], x[2], x[3])]
           /\ err' = err /\ phase' = "written"
-  /\ UNCHANGED <<case, back>>
+          \* a scalar that is None is not written: its cell keeps the fill value
+          /\ sfile' = [ft \in (Opt \cup OptD) \X Trajs |-> HeldBy(case, ft[1], ft[2])]
+  /\ UNCHANGED <<case, back, sback>>
 
 \* reading: rebuild, per field and trajectory, the set of <<species, value>>
 Fill == 0
@@ -81,8 +102,10 @@ Read ==
                 {<<FileSpecies(case)[p], CellVal(<<ft[1], ft[2], p>>)>> :
                     p \in {q \in 1..Len(FileSpecies(case)) :
                              ReadRule = "all" \/ <<ft[1], ft[2], q>> \in DOMAIN file}}]
+  /\ sback' = [ft \in DOMAIN sfile |->
+                 IF sfile[ft] = Unset /\ ScalarRule = "fill_is_default" /\ ft[1] \in OptD THEN <<ft[1], 0>> ELSE sfile[ft]]
   /\ phase' = "read"
-  /\ UNCHANGED <<case, file, err>>
+  /\ UNCHANGED <<case, file, err, sfile>>
 
 CNext == Write \/ Read
 CSpec == CInit /\ [][CNext]_cvars
@@ -92,6 +115,10 @@ Original(c) == [ft \in SFields \X Trajs |-> {<<sp, Val(ft[1], ft[2], sp)>> : sp 
 \* C03: what was stored is what is read back, species exact
 NoWriteError == err = "none"
 RoundTrip == phase = "read" => back = Original(case)
+\* unset optional scalars read back as stored: None stays None also when the
+\* field declares a default; a never-assigned one reads as its default
+ScalarRoundTrip == phase = "read" =>
+   \A ft \in (Opt \cup OptD) \X Trajs : sback[ft] = HeldBy(case, ft[1], ft[2])
 SpeciesExact == phase = "read" =>
    \A ft \in SFields \X Trajs : {pr[1] : pr \in back[ft]} = Sets(case, ft[2])[ft[1]]
 =============================================================================
